@@ -27,8 +27,9 @@ class Contents:
         return t
 
 
-def decode_backup(bdir, contents):
-    """-> model Backup dict (manifest may be None, archive entries until the first failure)."""
+def decode_backup(bdir, contents, split_padding=False):
+    """-> model Backup dict (manifest may be None, archive entries until the first failure).
+    split_padding: an entry longer than its unique record's size is given as content (the first `size` bytes) + `pad` zeros."""
     b = {'name': os.path.basename(bdir), 'manifest': None, 'archive': [], 'complete': True}
     try:
         recs = store.read_manifest(bdir)
@@ -57,7 +58,13 @@ def decode_backup(bdir, contents):
                     if len(data) != m.size:
                         b['complete'] = False
                         break
-                    b['archive'].append(dict(meta, type='file', path=m.name, cid=contents.cid(data) if data else 0, len=len(data)))
+                    usz = None
+                    if split_padding and b['manifest']:
+                        usz = next((r['size'] for r in b['manifest'] if r['unique'] and r['path'] == '/' + m.name), None)
+                    if usz and 0 < usz < len(data) and not any(data[usz:]):
+                        b['archive'].append(dict(meta, type='file', path=m.name, cid=contents.cid(data[:usz]), len=usz, pad=len(data) - usz))
+                    else:
+                        b['archive'].append(dict(meta, type='file', path=m.name, cid=contents.cid(data) if data else 0, len=len(data)))
                 elif m.issym():
                     b['archive'].append(dict(meta, type='symlink', path=m.name, target=m.linkname))
                 else:
@@ -67,14 +74,14 @@ def decode_backup(bdir, contents):
     return b
 
 
-def decode_group(gdir, contents):
+def decode_group(gdir, contents, split_padding=False):
     out = []
     for n in sorted(os.listdir(gdir)):
         p = os.path.join(gdir, n)
         if store.BACKUP_RE.match(n) and os.path.isdir(p):
             names = set(os.listdir(p))
             if {'data.tar.zst', 'metadata.zst'} <= names:
-                out.append(decode_backup(p, contents))
+                out.append(decode_backup(p, contents, split_padding))
             else:
                 out.append({'name': n, 'manifest': None, 'archive': [], 'complete': False, 'unlisted': True})
     return out
